@@ -110,6 +110,7 @@ type interpreter struct {
 	initDirect *ssa.Function
 	fmtDepth   int
 	egErrs     map[*value]iface
+	codePtrs   map[*ssa.Function]*value
 	stack      []*ssa.Function
 	stackAtPanic []*ssa.Function
 }
